@@ -211,8 +211,10 @@ func (e *env) runCase(cd caseDef) {
 		}
 		sdom = ns[k]
 	case "wrong-fork-version":
+		// the version of an adjacent epoch (the previous or the next fork) or the genesis version
+		ep := in.epoch()
 		var vs []eth2p0.Version
-		for _, v := range []eth2p0.Version{cl.Chain.ForkVersion, e.forks[0].Version, e.forks[1].Version} {
+		for _, v := range []eth2p0.Version{e.versionAt(ep - 1), e.versionAt(ep + 1), cl.Chain.ForkVersion, e.forks[0].Version} {
 			if v != ver {
 				vs = append(vs, v)
 			}
@@ -417,8 +419,10 @@ func (e *env) runCase(cd caseDef) {
 		admitted = after.vapiSub > before.vapiSub || after.storedInt > before.storedInt || (done && rerr == nil && !in.blocks)
 	}
 	forwarded := after.out > before.out || after.exBcast > before.exBcast
-	aggCalled := after.aggCalls > before.aggCalls
-	aggregated := aggCalled || after.aggOut > before.aggOut || after.bcast > before.bcast
+	// aggregation is attributed per duty: concurrent valid background traffic for other duties may
+	// legitimately aggregate in the same window
+	aggCalled := after.aggCalls[duty] > before.aggCalls[duty]
+	aggregated := aggCalled || after.aggOut[duty] > before.aggOut[duty] || after.bcast[duty] > before.bcast[duty]
 
 	switch {
 	case control:
@@ -429,8 +433,15 @@ func (e *env) runCase(cd caseDef) {
 		e.stats["controls_admitted"]++
 		verifrt.Probe("admitted-control:" + ts.name)
 		if primed {
-			if !aggCalled || after.aggOut == before.aggOut {
-				e.violate("control-rejected", cd.path+"/"+ts.name+"/primed-not-aggregated", "threshold-1 valid partials plus the valid control did not aggregate (aggregate called=%v)", aggCalled)
+			if !aggCalled || after.aggOut[duty] == before.aggOut[duty] {
+				var moved []string
+				for d, v := range after.aggCalls {
+					if v > before.aggCalls[d] {
+						moved = append(moved, d.String())
+					}
+				}
+				sort.Strings(moved)
+				e.violate("control-rejected", cd.path+"/"+ts.name+"/primed-not-aggregated", "threshold-1 valid partials plus the valid control for %v did not aggregate (aggregate called=%v; aggregation happened for %v)", duty, aggCalled, moved)
 			} else {
 				verifrt.Probe("control-completed-threshold")
 			}
@@ -451,7 +462,7 @@ func (e *env) runCase(cd caseDef) {
 			e.violate("forwarded-invalid", name, "the rejected submission caused outgoing traffic from the target (envelopes %d, broadcasts %d)", after.out-before.out, after.exBcast-before.exBcast)
 		}
 		if aggregated {
-			e.violate("aggregated-invalid", name, "the rejected submission reached aggregation (aggregate calls %d, aggregates %d, broadcasts %d; primed=%v)", after.aggCalls-before.aggCalls, after.aggOut-before.aggOut, after.bcast-before.bcast, primed)
+			e.violate("aggregated-invalid", name, "the rejected submission reached aggregation (aggregate calls %d, aggregates %d, broadcasts %d; primed=%v)", after.aggCalls[duty]-before.aggCalls[duty], after.aggOut[duty]-before.aggOut[duty], after.bcast[duty]-before.bcast[duty], primed)
 		}
 	}
 }
